@@ -109,15 +109,17 @@ def prepareFrom (st : St) (w : Wid) (sender : Option Addr) : Except Model.Fee.Er
     | none => .error .noaddr
   | none => let as := walletAddrs st w; if as.isEmpty then .error .noaddr else .ok as
 
+/-- the wallet's coins as ScriptAddressUnspents builds them (the node pool of the harness is empty) -/
+def walletCoins (st : St) (w : Wid) : List WCoin :=
+  let s := st.led.store
+  (coinsOf s w).map (fun c =>
+    { id := s!"{c.tx}:{c.idx}", amt := c.cred.amt, addr := c.cred.sh,
+      confs := (confs s.syncedTo c.blk.height) % 2^32, maturity := c.cred.maturity, spent := c.cred.spent,
+      spentByUnmined := spentByUnmined s c.tx c.idx, standard := decide (c.cred.cls = .standard), inPool := false })
+
 /-- the filter of getUtxosExcludeBindingAndStaking over ScriptAddressUnspents -/
 def eligibleCoins (st : St) (w : Wid) (addrs : List Addr) : List Model.Select.Coin :=
-  let s := st.led.store
-  (coinsOf s w).filterMap (fun c =>
-    let id := s!"{c.tx}:{c.idx}"
-    let conf := (confs s.syncedTo c.blk.height) % 2^32
-    if decide (conf ≥ c.cred.maturity) && !spentByUnmined s c.tx c.idx && !c.cred.spent &&
-       decide (c.cred.cls = .standard) && !utxoUsed st.reserved id && addrs.contains c.cred.sh
-    then some ⟨c.cred.amt, id, c.cred.sh⟩ else none)
+  eligibleOf st.reserved addrs (walletCoins st w)
 
 def outStr (o : Out) : String :=
   match o.cls with
